@@ -37,6 +37,23 @@ for pid, eng in REGISTERED.items():
         r = from_notes(pid)
         assert r, 'no manifest text for ' + pid
         CHECKS[pid] = dict(engine=eng, text=r[0], note=r[1], ref='DESIGN.md §5 ' + pid + ', notes/' + pid + '.md')
+# engines actually run by each check (kept here; notes/<ID>.md texts predate some of them)
+ENGINES = {'C01': 'E2+E3+E4L+E4S', 'C02': 'E2+E4L+E4S', 'C03': 'E2+E4L+E4S', 'C04': 'E1+E2+E4L+E4S', 'C05': 'E2+E3+E4+E4L',
+           'C06': 'E2+E3+E4L+E4S', 'C09': 'E2+E3'}
+CROSS = (' Cross-vCPU tie added after the notes were written (DESIGN.md §11 A5, A10, A11): the lockset engine E4L validates on '
+         'multi-vCPU runs that every access the model treats as lock-protected is made under that lock (incl. release-and-wait '
+         'atomicity)%s; none of these is a proof: the all-interleavings claim is the Coq theorem.')
+EXTRA_NOTE = {
+ 'C01': CROSS % ', and E4S searches controlled 2-vCPU schedules (plain, contending and recursive mutexes) with the property oracle',
+ 'C02': CROSS % ', and E4S searches controlled 2-vCPU schedules with the ledger / no-lost-wake-up oracle',
+ 'C03': CROSS % ', and E4S searches controlled 2-vCPU schedules with the notify-accounting oracle',
+ 'C04': CROSS % ', E4S searches controlled 2-vCPU schedules for the sleep / interrupt / shutdown contract, and C05\'s E4 replays standby-queue / migration placements',
+ 'C05': CROSS % ', and E4 (controlled multi-vCPU replay of the life-cycle model incl. steal, migrate, vcpu_fini) compares placements after every command',
+ 'C06': CROSS % ', E4S searches controlled 2-vCPU rwlock schedules, and the blocking qrwlock path is replayed under E3 (case kind B)',
+}
+for pid in CHECKS:
+    if pid in ENGINES: CHECKS[pid]['engine'] = ENGINES[pid]
+    if pid in EXTRA_NOTE: CHECKS[pid]['note'] = CHECKS[pid]['note'].rstrip() + EXTRA_NOTE[pid]
 PENDING_REASON = 'machinery for this property is still being built at this commit (DESIGN.md §10 order of work); not claimed until its check passes on the unchanged tree'
 
 man = {
@@ -51,6 +68,9 @@ man = {
   {'name': 'E1', 'path': 'lib/vlib.py (DiffCheck)', 'serves_properties': [], 'kind_free_text': 'pure differential: extracted Coq model vs C++ harness compiled from /repo on the same case file, plus a python oracle of the property on the implementation output'},
   {'name': 'E2', 'path': 'harness/E2, coq/Sched, harness/E2/e2lib.py', 'serves_properties': [], 'kind_free_text': 'deterministic single-vCPU replay of real photon under a virtual clock (hooks 9a76167) vs the Coq scheduler model; traces compared verbatim'},
   {'name': 'E3', 'path': 'harness/E3, coq/E3', 'serves_properties': [], 'kind_free_text': 'lock-step atomic-step replay of header-only lock-free code between OS threads under a token-passing controller vs Coq step models (SC)'},
+  {'name': 'E4S', 'path': 'harness/E4S, lib/e4s.py', 'serves_properties': [], 'kind_free_text': 'controlled multi-vCPU schedule search on the hook-enabled library (preemption at every lockset point, virtual clock, replayable PCT/random/hand-written schedules) with the property oracle on the implementation event log (hooks a599d49)'},
+  {'name': 'E4', 'path': 'harness/C05/e4_main.cpp, coq/C05/C05_E4.v', 'serves_properties': [], 'kind_free_text': 'controlled multi-vCPU replay of the thread life-cycle model (token-passing controller over the real steal / migrate / resume / vcpu_fini code; placements compared with the extracted model after every command)'},
+  {'name': 'E5', 'path': 'harness/C10, harness/C11, harness/C13, harness/C16, harness/C17', 'serves_properties': [], 'kind_free_text': 'scripted environment: interposed epoll / libc socket calls, scripted IStream / IFile / source filesystem, recording underlay'},
   {'name': 'E4L', 'path': 'harness/LS/lockset.cpp, lib/lockset.py', 'serves_properties': [], 'kind_free_text': 'lockset validation of the fine-grained models\' atomicity assumption on multi-vCPU runs of the hook-enabled library (hooks 5a10adb)'},
  ],
  'checks': [], 'not_applicable': [], 'notes': 'see DESIGN.md (approach, trusted base, findings) and FRAMEWORK.md (layout)'}
